@@ -7,6 +7,7 @@ sys.path.insert(0, os.path.dirname(os.path.abspath(__file__)))
 import extract
 def defs(text):
     text = text.split('*)', 1)[1]
+    text = re.sub(r'\(\* enclosing functions[^\n]*\*\)', '', text)
     out = {}
     for m in re.finditer(r'^Definition (\w+)[^\n]*?:=(.*?)\.\s*$', text, re.S | re.M):
         out[m.group(1)] = ' '.join(m.group(2).split())
@@ -19,7 +20,9 @@ for p in sorted(glob.glob(os.path.join(os.path.dirname(os.path.abspath(__file__)
     d = tempfile.mkdtemp(prefix='hq_')
     try:
         subprocess.run('git -C /repo archive HEAD src | tar -x -C %s' % d, shell=True, check=True)
-        subprocess.run('patch -p1 -s < %s' % os.path.abspath(p), shell=True, cwd=d, check=True)
+        if subprocess.run('patch -p1 -s < %s' % os.path.abspath(p), shell=True, cwd=d, stdout=subprocess.DEVNULL, stderr=subprocess.DEVNULL).returncode != 0:
+            print('%-20s %s' % (os.path.basename(p), 'does not apply to the repaired tree (it refactors a function that a fix: commit changed)'))
+            continue
         cur = defs(extract.run(os.path.join(d, 'src'))[1])
         diff = sorted(k for k in set(base) | set(cur) if base.get(k) != cur.get(k))
         print('%-20s %s' % (os.path.basename(p), diff if diff else 'identical'))
